@@ -220,6 +220,7 @@ func (c c05Case) nontrivial() bool {
 
 func runC05(t failer, c c05Case) {
 	ev.Eval()
+	journal("C05", c)
 	fail := func(sig, format string, args ...interface{}) {
 		violation(t, "C05", c.Side, "C05:"+c.Side+":"+sig, c, format, args...)
 	}
